@@ -141,26 +141,26 @@ theorem callClosure_hp (ps : List Op) (body : Op) (vmi : Nat) (args : List Val) 
 
 /-! ### the sweep, under the generic invariant -/
 
-variable {Pc : List Op → Op → Nat → Prop} {Pb : String → Prop} {Pq : String → Prop}
+variable {Pc : List Op → Op → Nat → Prop} {Pb : String → Prop} {Pq : String → Prop} {Pr : Nat → Prop}
 variable {Po : Op → Prop} {Pn : Name → Prop} {Psh : Prop}
-local notation "NP" => NPg Pc Pb Pq
-local notation "AllNP" => AllNPg Pc Pb Pq
-local notation "HeapNP" => HeapNPg Pc Pb Pq
-local notation "PD" => PDg Pc Pb Pq
-local notation "AllPD" => AllPDg Pc Pb Pq
-local notation "HeapPD" => HeapPDg Pc Pb Pq
-local notation "WorldNP" => WorldNPg Pc Pb Pq
-local notation "WorldPD" => WorldPDg Pc Pb Pq
+local notation "NP" => NPg Pc Pb Pq Pr
+local notation "AllNP" => AllNPg Pc Pb Pq Pr
+local notation "HeapNP" => HeapNPg Pc Pb Pq Pr
+local notation "PD" => PDg Pc Pb Pq Pr
+local notation "AllPD" => AllPDg Pc Pb Pq Pr
+local notation "HeapPD" => HeapPDg Pc Pb Pq Pr
+local notation "WorldNP" => WorldNPg Pc Pb Pq Pr
+local notation "WorldPD" => WorldPDg Pc Pb Pq Pr
 local notation "FrameP" => FramePg Po Pn Psh
 local notation "CtlP" => CtlPg Po
-local notation "CoreNP" => CoreNPg Pc Pb Pq Po Pn Psh
-local notation "CorePD" => CorePDg Pc Pb Pq Po Pn Psh
+local notation "CoreNP" => CoreNPg Pc Pb Pq Pr Po Pn Psh
+local notation "CorePD" => CorePDg Pc Pb Pq Pr Po Pn Psh
 
-variable (Pc Pb Pq) in
+variable (Pc Pb Pq Pr) in
 /-- an iteration continuation that preserves the heap in the sense of `HStep` -/
 def IterHPg (it : IterFn) : Prop :=
   ∀ kind g src acc k w, KindP PD kind → PD g → SrcP PD src → AllPD acc → WorldPD w → HStep w (it kind g src acc k w).w
-local notation "IterHP" => IterHPg Pc Pb Pq
+local notation "IterHP" => IterHPg Pc Pb Pq Pr
 
 theorem callMap_hp (it : IterFn) (hit : IterHP it) (args : List Val) (k : List Frame) (w : World) (ha : AllPD args)
     (hw : WorldPD w) : HStep w (callMap it args k w).w := by
@@ -182,8 +182,8 @@ theorem callMap_hp (it : IterFn) (hit : IterHP it) (args : List Val) (k : List F
         rw [← e] at hv
         simp at hv
         rcases hv with e1 | e1 <;> rw [e1]
-        · exact (hw.heap _ _ hgk kv hkv).1
-        · exact (hw.heap _ _ hgk kv hkv).2
+        · exact (hw.heap.1 _ _ hgk kv hkv).1
+        · exact (hw.heap.1 _ _ hgk kv hkv).2
       · hrefl
     · hrefl
     · hrefl
@@ -267,7 +267,7 @@ theorem callSorted_hp (it : IterFn) (hit : IterHP it) (args : List Val) (k : Lis
                 intro v hv
                 obtain ⟨kv, hkv, e⟩ := List.mem_map.mp hv
                 rw [← e]
-                exact .tuple (allPD_cons (hw.heap _ _ hg kv hkv).1 (allPD_cons (hw.heap _ _ hg kv hkv).2 allPD_nil))
+                exact .tuple (allPD_cons (hw.heap.1 _ _ hg kv hkv).1 (allPD_cons (hw.heap.1 _ _ hg kv hkv).2 allPD_nil))
               · simp [U] at hitems
             · simp [U] at hitems
           · exact iterItems_pd hw.heap hc hitems
